@@ -196,6 +196,21 @@ func (r *c18Rec) hook(ev string, o1, o2 any, a, b int) {
 	if ev == "hc.close.begin" {
 		r.waitGate(gid)
 	}
+	if ev == "hc.acq.new" {
+		if create, _ := o2.(bool); !create {
+			// AcquireConn found neither an idle connection nor a free slot and is about to leave connsLock;
+			// its next critical section (queueForIdle) comes a few instructions later.  Holding the lock for
+			// more than a millisecond here puts sync.Mutex into starvation mode, so goroutines already
+			// waiting for connsLock (a ReleaseConn, a decConnsCount) run BETWEEN the two critical sections.
+			r.jmu.Lock()
+			hold := r.jitter.Intn(100) < 30
+			d := time.Duration(1200+r.jitter.Intn(800)) * time.Microsecond
+			r.jmu.Unlock()
+			if hold {
+				time.Sleep(d)
+			}
+		}
+	}
 	r.mu.Lock()
 	defer r.mu.Unlock()
 	switch ev {
